@@ -146,6 +146,14 @@ pub fn judge(_cfg: &Config, case: &Case, l: &mut Local) {
                         }
                     } else if !opts.contains(&letter.as_str()) {
                         v(l, name, "undocumented-letter-accepted", &want, format!("{name}: accepts option letter {letter:?}, which it does not document"), case);
+                    } else if let Ok(Ok(j)) = guard(|| val.json())
+                        && let Ok(Ok(back)) = guard(|| (ops.from_json)(&j))
+                        && let Ok(s2) = guard(|| back.to_swift())
+                        && let Some(tag2) = emitted_tag(&s2)
+                        && tag2 != want
+                    {
+                        // the JSON route must keep the option as well
+                        v(l, name, "option-lost-through-json", &format!("{want}->{tag2}"), format!("{name}: a value parsed as option {letter:?} comes back from its own JSON as field {tag2}"), case);
                     }
                 }
             }
